@@ -46,11 +46,13 @@ std::vector<std::string> decodeFixedSet()
     }
     return out;
 }
-const std::vector<std::string> gDecodedBeforeMain = decodeFixedSet();
+const std::vector<std::string> gDecodedBeforeMain = probeInChild(decodeFixedSet);
 
 void beforeMainCase(Ctx& c)
 {
     std::vector<std::string> now = decodeFixedSet();
+    if (!probeDied(gDecodedBeforeMain).empty())
+        c.violation("C15:result-of-a-call-before-main-differs", probeDied(gDecodedBeforeMain), "fixed set of TECMP frames");
     for (size_t i = 0; i < now.size(); ++i)
     {
         ++c.evaluations;
